@@ -2,7 +2,7 @@
     small-step system of Appender/RollingModel.v, for every event list (= every schedule, every number of
     threads, every clock reading in range). *)
 From Coq Require Import ZArith NArith List String Bool Lia Sorted.
-From TV Require Import Appender.RollingModel Appender.RollingTimeProofs Appender.RollingDirProofs Appender.RollingFsProofs.
+From TV Require Import Appender.RollingModel Appender.RollingTimeProofs Appender.RollingNameProofs Appender.RollingDirProofs Appender.RollingFsProofs.
 Import ListNotations.
 Local Open Scope Z_scope.
 Local Notation length := List.length.
@@ -27,6 +27,8 @@ Lemma remove_tid_in i j l : In j (remove_tid i l) <-> In j l /\ j <> i.
 Proof.
   unfold remove_tid. rewrite filter_In. rewrite negb_true_iff, Nat.eqb_neq. tauto.
 Qed.
+
+(* rotation_eq_dec: see RollingNameProofs *)
 
 Definition time_of (p : pc) : Z :=
   match p with PLoad t _ _ | PCas t _ _ _ | PRefresh t _ _ | PRead t _ _ | PAppend t _ _ _ => t end.
@@ -107,6 +109,12 @@ Section Shared.
       all: try (intros j m u Hj; specialize (I5 _ _ _ Hj); lia).
   Qed.
 
+  Ltac dH H := match type of H with
+    | exists _, _ => let x := fresh "x" in destruct H as [x H]; dH H
+    | _ /\ _ => let H1 := fresh "H" in destruct H as [H1 H]; dH H1; dH H
+    | _ \/ _ => destruct H as [H|H]; dH H
+    | _ => idtac end.
+
   (** * B. the reader list and the pending list mirror the program counters *)
   Definition InvRP (s : state) : Prop :=
     (forall i, In i (readers s) <-> exists t b f g, pcs s i = Some (PAppend t b f g)) /\
@@ -117,14 +125,394 @@ Section Shared.
     induction 1 as [|s e R IH V].
     - unfold s0, init. destruct (create _ _ _). unfold InvRP; simpl. split; intros i; (split; [tauto|]); [intros [? [? [? [? H]]]]|intros [? [? [? H]]]]; discriminate.
     - destruct IH as [I1 I2].
-      step_cases s; unfold InvRP; simpl; rf; auto;
-      (split; intros j; [rewrite ?remove_tid_in; simpl; rewrite (I1 j)|rewrite ?remove_tid_in; simpl; rewrite (I2 j)];
-       unfold upd; destruct (Nat.eqb j i) eqn:Eji;
-       [apply Nat.eqb_eq in Eji; subst j; rewrite ?Hpc;
-        split; [intros H; repeat match goal with H : _ \/ _ |- _ => destruct H | H : _ /\ _ |- _ => destruct H | H : exists _, _ |- _ => destruct H end;
-                try discriminate; try congruence; try tauto; eauto 6
-               |intros H; repeat match goal with H : exists _, _ |- _ => destruct H end; try discriminate; try tauto; eauto 6]
-       |apply Nat.eqb_neq in Eji; split; [intros H; repeat match goal with H : _ \/ _ |- _ => destruct H | H : _ /\ _ |- _ => destruct H end; try congruence; auto
-                                         |intros H; try tauto; auto]]).
+      step_cases s; unfold InvRP; simpl; rf; auto.
+      all: try rewrite Hrd.
+      all: split; intros j; rewrite ?remove_tid_in; simpl; rewrite ?(I1 j), ?(I2 j).
+      all: unfold upd; destruct (Nat.eqb j i) eqn:Eji; [apply Nat.eqb_eq in Eji; subst j; rewrite ?Hpc|apply Nat.eqb_neq in Eji].
+      all: try tauto.
+      all: split; intros H; dH H.
+      all: try discriminate; try tauto; try congruence.
+      all: try (repeat eexists; reflexivity).
+      all: try (right; repeat eexists; eassumption).
+      all: try (split; auto; repeat eexists; eassumption).
+      all: try (repeat eexists; eassumption).
+  Qed.
+  (** * C. next_date and the compare_exchange *)
+  Definition last_t (s : state) : Z := match rots s with [] => t0 | (_, _, t) :: _ => t end.
+  Definition from_of (r : nat * Z * Z) : Z := snd (fst r).
+
+  Definition InvN (s : state) : Prop :=
+    (k = Never -> next s = 0 /\ rots s = []) /\
+    (k <> Never -> next s = next_usize k (last_t s)) /\
+    (forall r, In r (rots s) -> 0 < from_of r < next s /\ from_of r <= snd r) /\
+    StronglySorted (fun a b => from_of b < from_of a) (rots s) /\
+    (forall i t b n g, pcs s i = Some (PCas t b n g) ->
+        0 < n <= next s /\ n <= t /\ (n < next s -> exists j u, In (j, n, u) (rots s))) /\
+    (forall i n t, In (i, n, t) (fails s) -> exists j u, In (j, n, u) (rots s)) /\
+    (k <> Never -> forall t, In t (decided s) -> t < next s).
+
+  Lemma last_t_range s : InvT s -> 0 <= last_t s < TBOUND.
+  Proof.
+    intros [_ [I2 _]]. unfold last_t. destruct (rots s) as [|[[i n] t] r]; auto. apply (I2 i n t). left; reflexivity.
+  Qed.
+
+  Lemma should_rollover_some s t n : 0 <= t < TBOUND -> should_rollover s t = Some n -> n = next s /\ next s <> 0 /\ next s <= t.
+  Proof.
+    intros Ht. unfold should_rollover. rewrite to_usize_small by assumption.
+    destruct (next s =? 0) eqn:E; [discriminate|]. destruct (next s <=? t) eqn:E2; [|discriminate].
+    intros H; inversion H; subst. apply Z.eqb_neq in E. apply Z.leb_le in E2. auto.
+  Qed.
+  Lemma should_rollover_none s t : 0 <= t < TBOUND -> should_rollover s t = None -> next s = 0 \/ t < next s.
+  Proof.
+    intros Ht. unfold should_rollover. rewrite to_usize_small by assumption.
+    destruct (next s =? 0) eqn:E; [apply Z.eqb_eq in E; auto|]. destruct (next s <=? t) eqn:E2; [discriminate|].
+    apply Z.leb_gt in E2. auto.
+  Qed.
+
+  Lemma invN : forall s, reach s -> InvN s.
+  Proof.
+    induction 1 as [|s e R IH V].
+    - unfold s0, init. destruct (create _ _ _). unfold InvN; simpl.
+      repeat split; try discriminate; try tauto; try constructor.
+      unfold k in H. rewrite H. reflexivity.
+    - pose proof (invT s R) as IT. pose proof (last_t_range s IT) as HL.
+      destruct IT as [T1 [T2 [T3 [T4 T5]]]].
+      pose proof IH as IH'. destruct IH' as [N1 [N2 [N3 [N4 [N5 [N6 N7]]]]]].
+      assert (Hpos : k <> Never -> 0 < next s).
+      { intros Hk. rewrite (N2 Hk). pose proof (next_usize_gt k (last_t s) Hk HL). lia. }
+      step_cases s; try exact IH; unfold InvN, last_t in *; simpl; rf; simpl in V.
+      all: try (generalize (T1 _ _ Hpc); simpl; intros G1).
+      all: split; [|split; [|split; [|split; [|split; [|split]]]]].
+      all: try assumption.
+      all: try solve [intros j t' b' n' g' Hj; unfold upd in Hj; destruct (Nat.eqb j i) eqn:Eji; [discriminate|eapply N5; eauto]].
+      + (* load: should_rollover = Some *)
+        intros j t' b' n' g' Hj. unfold upd in Hj. destruct (Nat.eqb j i) eqn:Eji; [|eapply N5; eauto].
+        inversion Hj; subst. destruct (should_rollover_some s _ _ G1 Hsr) as [E1 [E2 E3]]. subst.
+        assert (Hk : k <> Never) by (intro Hk; destruct (N1 Hk); congruence). specialize (Hpos Hk).
+        repeat split; try lia.
+      + (* load: no rollover *)
+        intros Hk u [<-|Hu]; [|apply N7; auto].
+        destruct (should_rollover_none s t G1 Hsr); [specialize (Hpos Hk); lia|auto].
+      + destruct (N5 _ _ _ _ _ Hpc) as [C1 [C2 C3]]. intros Hk; destruct (N1 Hk); lia.
+      + intros _; reflexivity.
+      + destruct (N5 _ _ _ _ _ Hpc) as [C1 [C2 C3]]. apply Z.eqb_eq in Hn.
+        assert (Hk : k <> Never) by (intro Hk; destruct (N1 Hk); lia).
+        pose proof (next_usize_gt k t Hk G1). fold k.
+        intros r [<-|Hr]; unfold from_of; simpl; [lia|]. destruct (N3 r Hr). unfold from_of in *. lia.
+      + apply Z.eqb_eq in Hn. constructor; auto. rewrite Forall_forall; intros r Hr; destruct (N3 r Hr); unfold from_of at 2; simpl; lia.
+      + destruct (N5 _ _ _ _ _ Hpc) as [C1 [C2 C3]]. apply Z.eqb_eq in Hn.
+        assert (Hk : k <> Never) by (intro Hk; destruct (N1 Hk); lia).
+        pose proof (next_usize_gt k t Hk G1). fold k.
+        intros j t' b' n' g' Hj. unfold upd in Hj. destruct (Nat.eqb j i) eqn:Eji; [discriminate|].
+        destruct (N5 _ _ _ _ _ Hj) as [D1 [D2 D3]]. split; [lia|split; auto]. intros Hlt.
+        destruct (Z.eq_dec n' (next s)) as [E|E].
+        * exists i, t. left. congruence.
+        * destruct D3 as [j' [u Hu]]; [lia|]. exists j', u. right; auto.
+      + intros j n' t' Hj. destruct (N6 _ _ _ Hj) as [j' [u Hu]]. exists j', u. right; auto.
+      + destruct (N5 _ _ _ _ _ Hpc) as [C1 [C2 C3]]. apply Z.eqb_eq in Hn.
+        intros Hk. pose proof (next_usize_gt k t Hk G1). fold k.
+        intros u [<-|Hu]; [lia|]. specialize (N7 Hk u Hu). lia.
+      + intros j n' t' [Hj|Hj]; [|eapply N6; eauto]. inversion Hj; subst.
+        destruct (N5 _ _ _ _ _ Hpc) as [C1 [C2 C3]]. apply C3. apply Z.eqb_neq in Hn. lia.
+  Qed.
+
+  (** * D. the directory: nothing is lost, the limit holds, read guards point at the current file *)
+  Definition InvF (s : state) : Prop :=
+    FSInv c s /\ (forall i t b f g, pcs s i = Some (PAppend t b f g) -> f = cur s).
+
+  Lemma invF : forall s, reach s -> InvF s.
+  Proof.
+    induction 1 as [|s e R IH V].
+    - split; [apply FSInv_init; auto|]. unfold s0, init. destruct (create _ _ _). simpl. discriminate.
+    - pose proof (invRP s R) as [RP1 RP2].
+      pose proof IH as IH'. destruct IH' as [F1 F2].
+      step_cases s; try exact IH; unfold InvF.
+      all: split.
+      all: try solve [eapply FSInv_ext; [..|exact F1]; reflexivity].
+      all: try solve [simpl; intros j t' b' f' g' Hj; unfold upd in Hj; destruct (Nat.eqb j i) eqn:Eji; [discriminate|eapply F2; eauto]].
+      + eapply FSInv_ext; [..|apply (FSInv_refresh c s t F1)]; reflexivity.
+      + simpl. intros j t' b' f' g' Hj. unfold upd in Hj. destruct (Nat.eqb j i); [discriminate|].
+        exfalso. apply (proj2 (RP1 j)). eauto.
+      + simpl. intros j t' b' f' g' Hj. unfold upd in Hj. destruct (Nat.eqb j i); [inversion Hj; reflexivity|eapply F2; eauto].
+      + pose proof (F2 _ _ _ _ _ Hpc) as Ef. subst f.
+        eapply FSInv_ext; [..|apply (FSInv_append c s (cur s) t b i (clean s g) (nd g) F1)]; try reflexivity.
+        apply F1.
+  Qed.
+
+  (** * E. which file a write lands in *)
+  Definition ghost_of (p : pc) : opg :=
+    match p with PLoad _ _ g | PCas _ _ _ g | PRefresh _ _ g | PRead _ _ g | PAppend _ _ _ g => g end.
+
+  (** ghost counters: an operation has seen at least its own CAS wins *)
+  Definition InvG (s : state) : Prop :=
+    forall i p, pcs s i = Some p ->
+      (c0 (ghost_of p) + mine (ghost_of p) <= length (rots s))%nat /\
+      match p with PLoad _ _ g | PCas _ _ _ g => mine g = 0%nat | PRefresh _ _ g => mine g = 1%nat | _ => True end.
+
+  Lemma invG : forall s, reach s -> InvG s.
+  Proof.
+    induction 1 as [|s e R IH V].
+    - unfold s0, init. destruct (create _ _ _). unfold InvG; simpl. discriminate.
+    - step_cases s; try exact IH; unfold InvG; simpl; rf.
+      all: try (generalize (IH _ _ Hpc); simpl; intros [G1 G2]).
+      all: intros j p Hj; unfold upd in Hj; destruct (Nat.eqb j i) eqn:Eji;
+           [inversion Hj; subst; simpl; split; auto; lia|destruct (IH _ _ Hj); split; auto; simpl; lia].
+  Qed.
+
+  Let period_file (t : Z) : string := RollingNameProofs.period_file c t0 t.
+  Definition sclean (s : state) (g : opg) : Prop := clean s g = true /\ nd g = true.
+  Definition head_is (s : state) (i : nat) (t : Z) : Prop := exists n r, rots s = (i, n, t) :: r.
+  Definition head_not (s : state) (i : nat) : Prop := forall j n t r, rots s = (j, n, t) :: r -> j <> i.
+
+  Definition pc_ok (s : state) (i : nat) (p : pc) : Prop :=
+    match p with
+    | PLoad t _ g => sclean s g -> pend s = [] /\ last_t s <= t
+    | PCas t _ n g => sclean s g -> pend s = [] /\ last_t s <= t /\ next s = n
+    | PRefresh t _ g =>
+        (head_is s i t \/ (recheck c = true /\ k <> Never /\ next_usize k t < next s /\ head_not s i)) /\
+        (sclean s g -> head_is s i t /\ pend s = [i])
+    | PRead t _ g => sclean s g -> cur s = period_file t /\ pend s = []
+    | PAppend t _ f g => sclean s g -> f = period_file t /\ pend s = []
+    end.
+
+  Definition InvL (s : state) : Prop :=
+    (recheck c = true \/ overlapped s = false) ->
+    (forall i n t r, rots s = (i, n, t) :: r -> ~ In i (pend s) -> cur s = period_file t) /\
+    (rots s = [] -> cur s = period_file t0) /\
+    (forall i p, pcs s i = Some p -> pc_ok s i p) /\
+    (forall l, In l (lands s) -> l_clean l = true -> l_nd l = true -> l_file l = period_file (l_t l)).
+
+  Lemma pc_ok_ext s s' j p :
+    rots s' = rots s -> pend s' = pend s -> next s' = next s -> cur s' = cur s -> pc_ok s j p -> pc_ok s' j p.
+  Proof.
+    intros E1 E2 E3 E4. unfold pc_ok, sclean, clean, head_is, head_not, last_t. rewrite E1, E2, E3, E4. auto.
+  Qed.
+
+  Lemma period_file_same tl t : 0 <= tl <= t -> t < TBOUND -> (k <> Never -> t < next_usize k tl) ->
+    period_file t = period_file tl.
+  Proof. apply RollingNameProofs.period_file_same. Qed.
+
+  Lemma refresh_overlapped s t : overlapped (refresh c s t) = overlapped s.
+  Proof. apply (refresh_fields c s t). Qed.
+
+  Lemma cur_is_last s : InvL s -> (recheck c = true \/ overlapped s = false) -> pend s = [] -> cur s = period_file (last_t s).
+  Proof.
+    intros IL H Hp. destruct (IL H) as [L1 [L2 _]]. unfold last_t. destruct (rots s) as [|[[i n] t] r] eqn:E; auto.
+    eapply L1; eauto. rewrite Hp. simpl. tauto.
+  Qed.
+
+  Local Arguments Nat.eqb : simpl never.
+  Local Arguments Nat.add : simpl never.
+
+  Lemma invL : forall s, reach s -> InvL s.
+  Proof.
+    induction 1 as [|s e R IH V].
+    - unfold s0, init. destruct (create _ _ _). unfold InvL; simpl. intros _.
+      split; [discriminate|]. split; [intros _; unfold period_file, RollingNameProofs.period_file; fold k; destruct k; reflexivity|].
+      split; [discriminate|tauto].
+    - pose proof (invT s R) as IT. pose proof (last_t_range s IT) as HL. destruct IT as [T1 [T2 [T3 [T4 T5]]]].
+      pose proof (invRP s R) as [RP1 RP2].
+      pose proof (invN s R) as [N1 [N2 [N3 [N4 [N5 [N6 N7]]]]]].
+      pose proof (invG s R) as IG.
+      assert (HLM : last_t s <= maxstart s).
+      { unfold last_t. destruct (rots s) as [|[[? ?] ?] ?] eqn:E; [lia|]. eapply T5. left; reflexivity. }
+      assert (Hpos : k <> Never -> 0 < next s).
+      { intros Hk. rewrite (N2 Hk). pose proof (next_usize_gt k (last_t s) Hk HL). lia. }
+      pose proof (cur_is_last s IH) as CL.
+      step_cases s; try exact IH; unfold InvL; intros H'.
+      all: assert (H : recheck c = true \/ overlapped s = false)
+             by (simpl in H'; rewrite ?refresh_overlapped in H'; destruct H' as [?|H']; [left; auto|right; try exact H'; apply orb_false_iff in H'; tauto]).
+      all: destruct (IH H) as [L1 [L2 [L3 L4]]]; specialize (CL H).
+      all: try (pose proof (L3 _ _ Hpc) as OK; pose proof (T1 _ _ Hpc) as G1; simpl in G1; pose proof (IG _ _ Hpc) as [IG1 IG2]; simpl in IG1, IG2).
+      all: simpl; rf.
+      + (* Start *)
+        split; [exact L1|split; [exact L2|split; [|exact L4]]].
+        intros j p Hj. unfold upd in Hj. destruct (Nat.eqb j i) eqn:Eji.
+        * inversion Hj; subst p. unfold pc_ok, sclean, clean; simpl. intros [Hc Hnd].
+          apply andb_true_iff in Hc. destruct Hc as [Hq _]. apply Z.leb_le in Hnd.
+          split; [destruct (pend s); [reflexivity|discriminate]|unfold last_t in *; simpl; lia].
+        * eapply pc_ok_ext; [..|eapply L3; eauto]; reflexivity.
+      + (* Load: rollover due *)
+        split; [exact L1|split; [exact L2|split; [|exact L4]]].
+        intros j p Hj. unfold upd in Hj. destruct (Nat.eqb j i) eqn:Eji.
+        * inversion Hj; subst p. destruct (should_rollover_some s _ _ G1 Hsr) as [E1 _].
+          unfold pc_ok, sclean, clean, last_t in *; simpl in *. intros Hs. destruct (OK Hs). auto.
+        * eapply pc_ok_ext; [..|eapply L3; eauto]; reflexivity.
+      + (* Load: no rollover *)
+        split; [exact L1|split; [exact L2|split; [|exact L4]]].
+        intros j p Hj. unfold upd in Hj. destruct (Nat.eqb j i) eqn:Eji.
+        * inversion Hj; subst p. unfold pc_ok in *. intros Hs.
+          assert (Hs' : sclean s g) by exact Hs. destruct (OK Hs') as [Hp Hle].
+          split; [|exact Hp]. simpl. rewrite (CL Hp). symmetry. apply period_file_same; try lia.
+          intros Hk. rewrite <- (N2 Hk). destruct (should_rollover_none s t G1 Hsr); [specialize (Hpos Hk); lia|auto].
+        * eapply pc_ok_ext; [..|eapply L3; eauto]; reflexivity.
+      + (* CAS won *)
+        destruct (N5 _ _ _ _ _ Hpc) as [C1 [C2 C3]]. apply Z.eqb_eq in Hn.
+        assert (Hk : k <> Never) by (intro Hk; destruct (N1 Hk); lia).
+        pose proof (next_usize_gt k t Hk G1) as Hgt.
+        split; [|split; [discriminate|split; [|exact L4]]].
+        * intros j m u r E Hnin. inversion E; subst. exfalso. apply Hnin. left; reflexivity.
+        * intros j p Hj. unfold upd in Hj. destruct (Nat.eqb j i) eqn:Eji.
+          -- apply Nat.eqb_eq in Eji. subst j. inversion Hj; subst p. unfold pc_ok. simpl. split.
+             ++ left. unfold head_is. simpl. eauto.
+             ++ intros [Hc Hnd]. unfold clean in Hc. simpl in Hc, Hnd.
+                assert (Hs : sclean s g).
+                { split; auto. unfold clean. apply andb_true_iff in Hc. destruct Hc as [Hq Hc]. rewrite Hq. simpl.
+                  apply Nat.eqb_eq in Hc. apply Nat.eqb_eq. lia. }
+                destruct (OK Hs) as [Hp _]. split; [unfold head_is; simpl; eauto|rewrite Hp; reflexivity].
+          -- apply Nat.eqb_neq in Eji. pose proof (L3 _ _ Hj) as OKj. pose proof (IG _ _ Hj) as [IGj1 IGj2].
+             assert (Hdirty : forall P : Prop, clean (with_pcs
+                  (with_ghost (set_next s (next_usize (rot c) t)) ((i, n, t) :: rots s) (fails s) (t :: decided s)
+                     (i :: pend s) (overlapped s || negb (is_nil (pend s))))
+                  (upd (pcs s) i (Some (PRefresh t b {| q0 := q0 g; c0 := c0 g; mine := 1; nd := nd g |})))) (ghost_of p) = true -> P).
+             { intros P Hc. exfalso. unfold clean in Hc. simpl in Hc. apply andb_true_iff in Hc. destruct Hc as [_ Hc].
+               apply Nat.eqb_eq in Hc. lia. }
+             destruct p as [tj bj gj|tj bj nj gj|tj bj gj|tj bj gj|tj bj fj gj]; unfold pc_ok in *; simpl in Hdirty |- *;
+               try (intros [Hc _]; apply Hdirty; exact Hc).
+             destruct OKj as [OK1 OK2]. split; [|intros [Hc _]; apply Hdirty; exact Hc].
+             right.
+             assert (Hin : In j (pend s)) by (apply RP2; eauto).
+             assert (Hrc : recheck c = true).
+             { destruct H' as [|H']; auto. simpl in H'. destruct (pend s); [destruct Hin|]. simpl in H'.
+               rewrite orb_true_r in H'. discriminate. }
+             split; [auto|split; [auto|split]].
+             ++ destruct OK1 as [[m [r E]]|[_ [_ [Hlt _]]]]; fold k; [|lia].
+                assert (next s = next_usize k tj) by (rewrite (N2 Hk); unfold last_t; rewrite E; reflexivity). lia.
+             ++ unfold head_not. simpl. intros j' m u r E. inversion E; subst. auto.
+      + (* CAS lost *)
+        split; [exact L1|split; [exact L2|split; [|exact L4]]].
+        intros j p Hj. unfold upd in Hj. destruct (Nat.eqb j i) eqn:Eji.
+        * inversion Hj; subst p. unfold pc_ok in *. intros Hs.
+          assert (Hs' : sclean s g) by exact Hs. destruct (OK Hs') as [_ [_ E]]. apply Z.eqb_neq in Hn. congruence.
+        * eapply pc_ok_ext; [..|eapply L3; eauto]; reflexivity.
+      + (* refresh skipped *)
+        apply andb_true_iff in Hrc. destruct Hrc as [Hrck Hne]. apply negb_true_iff in Hne. apply Z.eqb_neq in Hne. fold k in Hne.
+        destruct OK as [OK1 OK2].
+        assert (Hin : In i (pend s)) by (apply RP2; eauto).
+        assert (Hnh : ~ head_is s i t).
+        { intros [m [r E]]. assert (Hk : k <> Never) by (intro Hk; destruct (N1 Hk) as [_ E2]; congruence).
+          apply Hne. rewrite (N2 Hk). unfold last_t. rewrite E. reflexivity. }
+        assert (HN : head_not s i) by (destruct OK1 as [?|[_ [_ [_ ?]]]]; [contradiction|assumption]).
+        split; [|split; [exact L2|split; [|exact L4]]].
+        * intros j m u r E Hnin. apply (L1 _ _ _ _ E). intro Hj. apply Hnin. apply remove_tid_in. split; auto. apply (HN _ _ _ _ E).
+        * intros j p Hj. unfold upd in Hj. destruct (Nat.eqb j i) eqn:Eji.
+          -- inversion Hj; subst p. unfold pc_ok. intros Hs. exfalso. apply Hnh. apply OK2. exact Hs.
+          -- apply Nat.eqb_neq in Eji. pose proof (L3 _ _ Hj) as OKj.
+             destruct p as [tj bj gj|tj bj nj gj|tj bj gj|tj bj gj|tj bj fj gj]; unfold pc_ok in *.
+             ++ intros Hs. assert (Hs0 : sclean s gj) by exact Hs. destruct (OKj Hs0) as [Hp _]. rewrite Hp in Hin. destruct Hin.
+             ++ intros Hs. assert (Hs0 : sclean s gj) by exact Hs. destruct (OKj Hs0) as [Hp _]. rewrite Hp in Hin. destruct Hin.
+             ++ destruct OKj as [O1 O2]. split; [exact O1|].
+                intros Hs. assert (Hs0 : sclean s gj) by exact Hs. destruct (O2 Hs0) as [_ Hp]. rewrite Hp in Hin.
+                destruct Hin as [E|[]]. congruence.
+             ++ intros Hs. assert (Hs0 : sclean s gj) by exact Hs. destruct (OKj Hs0) as [_ Hp]. rewrite Hp in Hin. destruct Hin.
+             ++ intros Hs. assert (Hs0 : sclean s gj) by exact Hs. destruct (OKj Hs0) as [_ Hp]. rewrite Hp in Hin. destruct Hin.
+      + (* refresh *)
+        destruct OK as [OK1 OK2].
+        assert (Hin : In i (pend s)) by (apply RP2; eauto).
+        assert (Hh : head_is s i t).
+        { destruct OK1 as [?|[Hr [Hk [Hlt _]]]]; auto. exfalso. rewrite Hr in Hrc. simpl in Hrc.
+          apply negb_false_iff in Hrc. apply Z.eqb_eq in Hrc. fold k in Hrc. lia. }
+        destruct Hh as [m [r E]].
+        assert (Hk : k <> Never) by (intro Hk; destruct (N1 Hk) as [_ E2]; congruence).
+        assert (Hpf : join_date c t = period_file t) by (unfold period_file, RollingNameProofs.period_file; fold k; destruct k; congruence).
+        split; [|split; [intros E2; congruence|split; [|exact L4]]].
+        * intros j m' u r' E' _. rewrite E in E'. inversion E'; subst. exact Hpf.
+        * intros j p Hj. unfold upd in Hj. destruct (Nat.eqb j i) eqn:Eji.
+          -- inversion Hj; subst p. unfold pc_ok, sclean, clean. simpl. rf. intros [Hc Hnd].
+             assert (Hs0 : sclean s g) by (split; auto). destruct (OK2 Hs0) as [_ Hp]. split; [exact Hpf|].
+             rewrite Hp. unfold remove_tid. simpl. rewrite Nat.eqb_refl. reflexivity.
+          -- apply Nat.eqb_neq in Eji. pose proof (L3 _ _ Hj) as OKj.
+             destruct p as [tj bj gj|tj bj nj gj|tj bj gj|tj bj gj|tj bj fj gj]; unfold pc_ok, sclean, clean, head_is, head_not in *; simpl; rf.
+             ++ intros Hs. destruct (OKj Hs) as [Hp _]. rewrite Hp in Hin. destruct Hin.
+             ++ intros Hs. destruct (OKj Hs) as [Hp _]. rewrite Hp in Hin. destruct Hin.
+             ++ destruct OKj as [O1 O2]. split; [exact O1|].
+                intros Hs. destruct (O2 Hs) as [_ Hp]. rewrite Hp in Hin.
+                destruct Hin as [E3|[]]. congruence.
+             ++ intros Hs. destruct (OKj Hs) as [_ Hp]. rewrite Hp in Hin. destruct Hin.
+             ++ intros Hs. destruct (OKj Hs) as [_ Hp]. rewrite Hp in Hin. destruct Hin.
+      + (* read lock *)
+        split; [exact L1|split; [exact L2|split; [|exact L4]]].
+        intros j p Hj. unfold upd in Hj. destruct (Nat.eqb j i) eqn:Eji.
+        * inversion Hj; subst p. unfold pc_ok in *. intros Hs. apply (OK Hs).
+        * eapply pc_ok_ext; [..|eapply L3; eauto]; reflexivity.
+      + (* append *)
+        split; [exact L1|split; [exact L2|split]].
+        * intros j p Hj. unfold upd in Hj. destruct (Nat.eqb j i) eqn:Eji; [discriminate|].
+          eapply pc_ok_ext; [..|eapply L3; eauto]; reflexivity.
+        * intros l [<-|Hl]; [|apply L4; auto]. simpl. intros Hc Hnd. apply OK. split; auto.
+  Qed.
+
+  (** * The theorems, for every event list *)
+  Lemma sorted_nodup (l : list (nat * Z * Z)) :
+    StronglySorted (fun a b => from_of b < from_of a) l -> NoDup (map from_of l).
+  Proof.
+    induction 1 as [|a l S IH F]; simpl; constructor; auto.
+    intro Hin. apply in_map_iff in Hin. destruct Hin as [x [E Hx]]. rewrite Forall_forall in F. specialize (F x Hx). lia.
+  Qed.
+
+  (** a write that overlaps no other thread's rotation and whose clock reading is not behind an earlier
+      one lands in its period's file — for every schedule when make_writer re-checks under the write
+      lock, and for the schedules without overlapping rotations when it does not *)
+  Theorem shared_lands_in_period : forall evs, Forall valid_ev evs ->
+    (recheck c = true \/ overlapped (run c s0 evs) = false) ->
+    forall l, In l (lands (run c s0 evs)) -> l_clean l = true -> l_nd l = true -> l_file l = period_file (l_t l).
+  Proof. intros evs V H. apply (invL _ (reach_run evs V) H). Qed.
+
+  (** every buffer is stored exactly once, whole, in order; appends only ever go to a file that exists *)
+  Theorem shared_never_lost : forall evs, Forall valid_ev evs ->
+    Stored (run c s0 evs) /\
+    in_dir (cur (run c s0 evs)) (dir (run c s0 evs)) = true /\
+    (forall i t b f g, pcs (run c s0 evs) i = Some (PAppend t b f g) -> in_dir f (dir (run c s0 evs)) = true) /\
+    DirOK (dir (run c s0 evs)) (tick (run c s0 evs)).
+  Proof.
+    intros evs V. destruct (invF _ (reach_run evs V)) as [[HD [HC [HS HL]]] F2]. repeat split; auto; try apply HD.
+    intros i t b f g Hp. rewrite (F2 _ _ _ _ _ Hp). exact HC.
+  Qed.
+
+  (** the compare_exchange elects exactly one rotation per boundary value, for any number of threads *)
+  Theorem shared_one_rotation_per_boundary : forall evs, Forall valid_ev evs ->
+    NoDup (map from_of (rots (run c s0 evs))) /\
+    (forall i n t, In (i, n, t) (fails (run c s0 evs)) -> exists j u, In (j, n, u) (rots (run c s0 evs))) /\
+    (forall r, In r (rots (run c s0 evs)) -> from_of r <= snd r /\ from_of r < next (run c s0 evs)).
+  Proof.
+    intros evs V. destruct (invN _ (reach_run evs V)) as [N1 [N2 [N3 [N4 [N5 [N6 N7]]]]]].
+    split; [apply sorted_nodup; auto|split; [exact N6|]]. intros r Hr. destruct (N3 r Hr). lia.
+  Qed.
+
+  (** a clock reading that stands still or steps back behind one already acted upon never rotates *)
+  Theorem shared_no_rotation_backwards : forall evs, Forall valid_ev evs ->
+    (k = Never -> rots (run c s0 evs) = []) /\
+    (k <> Never -> forall u, In u (decided (run c s0 evs)) -> u < next (run c s0 evs)) /\
+    (forall i t b g u, pcs (run c s0 evs) i = Some (PLoad t b g) ->
+       (k = Never \/ (In u (decided (run c s0 evs)) /\ t <= u)) ->
+       step c (run c s0 evs) (Step i) =
+       with_pcs (with_ghost (run c s0 evs) (rots (run c s0 evs)) (fails (run c s0 evs)) (t :: decided (run c s0 evs))
+                            (pend (run c s0 evs)) (overlapped (run c s0 evs)))
+                (upd (pcs (run c s0 evs)) i (Some (PRead t b g)))).
+  Proof.
+    intros evs V. set (s := run c s0 evs). pose proof (reach_run evs V) as R. fold s in R.
+    destruct (invN _ R) as [N1 [N2 [N3 [N4 [N5 [N6 N7]]]]]]. destruct (invT _ R) as [T1 _].
+    split; [intros Hk; apply N1; auto|split; [exact N7|]].
+    intros i t b g u Hp Hu. simpl. rewrite Hp. specialize (T1 _ _ Hp). simpl in T1.
+    assert (E : should_rollover s t = None).
+    { unfold should_rollover. rewrite to_usize_small by assumption. destruct Hu as [Hk|[Hu Hle]].
+      - destruct (N1 Hk) as [E _]. rewrite E. reflexivity.
+      - destruct (rotation_eq_dec k Never) as [Hk|Hk]; [destruct (N1 Hk) as [E _]; rewrite E; reflexivity|].
+        specialize (N7 Hk u Hu). destruct (next s =? 0); auto. destruct (next s <=? t) eqn:E; auto. apply Z.leb_le in E. lia. }
+    rewrite E. reflexivity.
+  Qed.
+
+  (** with a limit, from the first rotation on there are never more than that many of the appender's files *)
+  Theorem shared_prune_limit : forall evs, Forall valid_ev evs -> Limit c (run c s0 evs).
+  Proof. intros evs V. apply (invF _ (reach_run evs V)). Qed.
+
+  (** ... and each refresh removes only the appender's own files, oldest creation first *)
+  Theorem shared_prune_oldest : forall evs t m, Forall valid_ev evs -> max_files c = Some m ->
+    forall r, In r (dir (run c s0 evs)) -> ~ In r (dir (refresh c (run c s0 evs) t)) ->
+      matches c (fname r) = true /\
+      forall f, In f (dir (run c s0 evs)) -> In f (dir (refresh c (run c s0 evs) t)) -> matches c (fname f) = true ->
+                (created r < created f)%N.
+  Proof.
+    intros evs t m V Hm. apply (refresh_removes_oldest c _ t m Hm). apply (shared_never_lost evs V).
   Qed.
 End Shared.
